@@ -8,6 +8,7 @@ package checks
 // SQLite's own view and with a freshly opened handle.
 
 import (
+	"encoding/binary"
 	"fmt"
 	"os"
 	"path/filepath"
@@ -211,6 +212,22 @@ func runC08(r *ev.Run) {
 			r.StateBytes(baseImg[i])
 		}
 		p.Stop()
+	}
+	// the first base once more with a file change counter (and the version-valid-for field next to the in-header size)
+	// of 0xffffffff: the first commit wraps it to 0, so "changed" must not mean "grew"
+	if len(baseImg[0]) >= 100 {
+		img := append([]byte{}, baseImg[0]...)
+		binary.BigEndian.PutUint32(img[24:28], 0xffffffff)
+		binary.BigEndian.PutUint32(img[92:96], 0xffffffff)
+		bases = append(bases, c08Base{name: bases[0].name + " (file change counter 0xffffffff)"})
+		baseImg = append(baseImg, img)
+		r.StateBytes(img)
+		for _, j := range append([]job{}, jobs...) {
+			if j.base == 0 && len(j.seq) <= 2 && !j.openTx {
+				jobs = append(jobs, job{len(bases) - 1, j.seq, false})
+			}
+		}
+		r.Set("sequences", len(jobs))
 	}
 	nw := runtime.NumCPU()
 	var mu sync.Mutex
